@@ -18,7 +18,7 @@ func prop(id string, rules []string, explanation, notDecided string, extra ...st
 var frozenMin = map[string]int{
 	"P-API-FORMS": 300, "P-ATOMIC-WRITE": 9, "P-BOUNDS": 10, "P-CLONE": 2, "P-COMMENT": 4, "P-CTOR": 9, "P-DICT": 7, "P-ERR-PROP": 40,
 	"P-FILERENDER-ORDER": 4, "P-FORMAT-GATE": 10, "P-FRAGMENT": 7, "P-GROUPRENDER": 11, "P-IMPORTBLOCK": 5, "P-ISNULL": 13,
-	"P-LITCTOR": 10, "P-LOCALDOT": 0, "P-MAPRANGE": 5, "P-NILGUARD": 10, "P-REGISTER": 10, "P-RENDERITEMS": 5, "P-STMTRENDER": 2,
+	"P-LITCTOR": 10, "P-LOCALDOT": 0, "P-DOT-STABLE": 1, "P-MAPRANGE": 5, "P-NILGUARD": 10, "P-REGISTER": 10, "P-RENDERITEMS": 5, "P-STMTRENDER": 2,
 	"P-TAG": 6, "P-TOKEN": 5, "P-VALIDALIAS": 1, "T-CONSTRUCTS": 280, "T-GENNAMES": 4, "T-KEYWORDS": 70, "T-LITFMT": 36,
 	"T-REGEX": 4, "T-RESERVED": 66, "T-STDHINTS": 160, "T-TOKCONTENT": 50, "W-CALLBACK": 90, "W-FS-EFFECTS": 3, "W-GLOBALS-RO": 1,
 	"W-IMPORTS-WRITERS": 5, "W-ISNULL-PURE": 6, "W-NO-CONCURRENCY": 3, "W-NONDET-API": 2, "W-PANICS": 6, "W-REGISTER-CALLERS": 2,
@@ -47,7 +47,7 @@ func init() {
 	prop("C07", []string{"P-MAPRANGE", "W-NONDET-API", "P-TAG", "W-RENDER-STORES"},
 		"Every range over a map in jen has only order-insensitive effects (updates keyed by the range key, collected slices sorted before any other read, no output / registration / concatenation inside the loop) and nothing in jen consults a clock, randomness, the environment or formats an address. One known finding on the pinned tree: Dict.render renders keys (and thereby registers imports) inside its map range.",
 		"determinism of sort / fmt / go/format themselves; the order among Dict pairs whose keys render identically")
-	prop("C08", []string{"W-RENDER-STORES", "W-IMPORTS-WRITERS", "P-REGISTER", "P-FRAGMENT", "P-GROUPRENDER", "P-MAPRANGE@@!registration function"},
+	prop("C08", []string{"W-RENDER-STORES", "W-IMPORTS-WRITERS", "P-REGISTER", "P-FRAGMENT", "P-GROUPRENDER", "P-DOT-STABLE", "P-MAPRANGE@@!registration function"},
 		"Nothing reachable from any render / isNull implementation or render entry point stores to memory that existed before the call, except new File.imports entries made by the registration function (mod-ref summaries over the module call graph); File.imports is never reset, deleted from or re-assigned; the registration function returns the stored name for a known path before consulting hints; fragment renders use the caller's File; the brace-less case-block form is chosen per render from local copies.",
 		"byte equality of successive renders additionally relies on C07's clauses and on the determinism of the standard library")
 	prop("C09", []string{"W-GLOBALS-RO", "W-NO-CONCURRENCY", "W-RENDER-STORES", "W-NONDET-API", "W-FILE-ARGS"},
